@@ -29,6 +29,10 @@ CHECKS = {
  'C18': ('exploration', 'runtime monitor: differential oracle between the Python port (in-process) and the JS port (node driver) on exhaustive small lines / fields / files, cross round trips and generated common-syntax select lists',
          'Both ports are executed on the same exhaustive small inputs and every observable (fields, warning flag, quoted form, records, header, warning multiset, error class, written bytes, output header) is compared; held on the inputs observed.',
          'Differential only: defects shared by both ports are invisible here and are covered by the reference-model checks (C10-C12, C07).', 'DESIGN.md#c18'),
+
+ 'C01': ('exploration', 'runtime monitor: reference-model oracle (independent interpreter of the relational semantics) over generated structured queries x tables, observed through probe iterator/writer/registry (event log, alias map, source snapshots); JS leg via node',
+         'Tens of thousands of generated (query, table, join table) cases per run are executed on the real engines and compared exactly (rows in order, header, error class and record number) with an independent interpreter; held on the executions observed.',
+         'Trusted: rv/model/refsem.py; expressions limited to the typed vocabulary of rv/model/qast.py.', 'DESIGN.md#c01'),
 }
 
 NOT_YET = 'check not registered yet (machinery under construction; see DESIGN.md section 3a build order)'
